@@ -1,5 +1,6 @@
 (** C01 obligation: the boolean evaluated on real instances by the correspondence run decides membership in the theorem's domain. *)
 From OfxV Require Import Base.Prelude Model.Schema Model.Convert Model.ConvertCases Model.ValidB Proofs.RoundTrip3 Proofs.ValidBSound.
-Theorem valid_b_sound : forall tb utb S i, valid_b tb utb S i = true -> valid hval (tconv tb) (tunconv utb) S i.
+Theorem valid_b_sound : forall sval sval_eqb, (forall a b, sval_eqb a b = true -> a = b) ->
+  forall conv unconv S i, valid_b sval sval_eqb conv unconv S i = true -> valid sval conv unconv S i.
 Proof. exact valid_b_sound_l. Qed.
 Print Assumptions valid_b_sound.
